@@ -68,44 +68,56 @@ def structured_matrix(draw, n, p, exact=None, boundary_positions=(), max_shifts=
     """signal + noise. Shifts/spikes/bumps are placed at generated positions, with the
     given boundary positions (first/last admissible ones of the detector at hand) made
     likely. Returns (X, meta) where meta lists what was placed."""
+    # Layout: the structure first and with a fixed number of draws, the bulk noise last. Hypothesis derives most
+    # of its cases by copying spans of an earlier case; a copy that changes the length of a variable-size part
+    # misaligns every later choice, which then falls back to its *minimal* value. Measured: choices drawn after
+    # the bulk data of a case took their minimal value in 35-60 % of the cases. See DESIGN.md 8.2.
     if exact is None:
         exact = draw(st.booleans())
-    if noise:
-        X = draw(noise_matrix(n, p, exact))
-    else:
-        X = [[0.0] * p for _ in range(n)]
+    sc, dither = None, False
     if not exact and min_noise_scale is not None:
         sc = draw(st.floats(min_noise_scale, 2.0))
-        X = [[v * sc for v in row] for row in X]
-        if draw(st.integers(0, 3)) > 0:
-            # deterministic dither (Weyl sequence) so that slices are rarely exactly constant
-            X = [[v + sc * ((((i + 1) * 0.6180339887498949 + (j + 1) * 0.7548776662466927) % 1.0) - 0.5)
-                  for j, v in enumerate(row)] for i, row in enumerate(X)]
+        dither = draw(st.integers(0, 3)) > 0
     pos = st.integers(0, n - 1)
     if boundary_positions:
         bp = [b for b in boundary_positions if 0 <= b <= n - 1]
         if bp:
             pos = st.one_of(st.sampled_from(bp), pos)
     mag = st.integers(-12, 12) if exact else st.floats(-12.0, 12.0, allow_nan=False)
-    cols = st.lists(st.integers(0, p - 1), min_size=1, max_size=p, unique=True)
+    mask = st.integers(1, 2 ** p - 1)  # non-empty subset of the columns
+
+    def columns(m):
+        return [j for j in range(p) if (m >> j) & 1]
+
+    counts = [draw(st.integers(0, k)) for k in (max_shifts, max_spikes, max_bumps)]
+    shifts = [(draw(pos), draw(mag), draw(mask)) for _ in range(max_shifts)][:counts[0]]
+    spikes = [(draw(pos), draw(mag), draw(mask)) for _ in range(max_spikes)][:counts[1]]
+    bumps = [(draw(pos), draw(st.integers(1, max(1, n // 2))), draw(mag), draw(mask)) for _ in range(max_bumps)][:counts[2]]
+    if noise:
+        X = draw(noise_matrix(n, p, exact))
+    else:
+        X = [[0.0] * p for _ in range(n)]
+    if sc is not None:
+        X = [[v * sc for v in row] for row in X]
+        if dither:
+            # deterministic dither (Weyl sequence) so that slices are rarely exactly constant
+            X = [[v + sc * ((((i + 1) * 0.6180339887498949 + (j + 1) * 0.7548776662466927) % 1.0) - 0.5)
+                  for j, v in enumerate(row)] for i, row in enumerate(X)]
     meta = {"shifts": [], "spikes": [], "bumps": []}
-    for _ in range(draw(st.integers(0, max_shifts))):
-        t, m, cs = draw(pos), draw(mag), draw(cols)
+    for t, m, cm in shifts:
         meta["shifts"].append(t)
         for i in range(t, n):
-            for j in cs:
+            for j in columns(cm):
                 X[i][j] += float(m)
-    for _ in range(draw(st.integers(0, max_spikes))):
-        t, m, cs = draw(pos), draw(mag), draw(cols)
+    for t, m, cm in spikes:
         meta["spikes"].append(t)
-        for j in cs:
+        for j in columns(cm):
             X[t][j] += float(m) * 2
-    for _ in range(draw(st.integers(0, max_bumps))):
-        a, ln, m, cs = draw(pos), draw(st.integers(1, max(1, n // 2))), draw(mag), draw(cols)
+    for a, ln, m, cm in bumps:
         b = min(n, a + ln)
         meta["bumps"].append([a, b])
         for i in range(a, b):
-            for j in cs:
+            for j in columns(cm):
                 X[i][j] += float(m)
     return X, meta
 
@@ -117,10 +129,11 @@ def any_matrix(draw, n, p):
     if kind == "offset_scale":
         # per-column level and spread: x = offset_j + scale_j * noise (signal well above / below its level,
         # small and large units); variances stay far above the 1e-16 floor
+        levels = [(draw(st.sampled_from([0.0, 10.0, 300.0, -1000.0, 0.5])), draw(st.sampled_from([1.0, 1e-2, 1e-3, 1e2, 0.2])))
+                  for _ in range(p)]
         X = draw(noise_matrix(n, p, False))
         for j in range(p):
-            off = draw(st.sampled_from([0.0, 10.0, 300.0, -1000.0, 0.5]))
-            sc = draw(st.sampled_from([1.0, 1e-2, 1e-3, 1e2, 0.2]))
+            off, sc = levels[j]
             for i in range(n):
                 X[i][j] = off + sc * (X[i][j] + 0.25 * ((((i + 1) * 0.6180339887498949 + (j + 1) * 0.7548776662466927) % 1.0) - 0.5))
         return X
@@ -146,8 +159,8 @@ def any_matrix(draw, n, p):
         c = draw(st.sampled_from([0.1, 0.0, 1.0, -3.5, 0.3]))
         X = [[c] * p for _ in range(n)]
         if draw(st.booleans()) and p > 1:
-            col = draw(exact_matrix(n, 1))
             j = draw(st.integers(0, p - 1))
+            col = draw(exact_matrix(n, 1))
             for i in range(n):
                 X[i][j] = col[i][0]
         return X
@@ -169,10 +182,14 @@ def max_abs(X):
 
 INDEX_KINDS = ["range0", "range_offset", "range_step", "datetime_D", "datetime_h", "period_M",
                "period_D"]
+# time indexes in which one label occurs twice (hourly wall-clock stamps over the end of daylight saving, several
+# readings per period): monotone, accepted by the library's validation, handled purely by position
+REPEAT_INDEX_KINDS = ["datetime_repeat", "period_repeat"]
+INDEX_NAMES = [None, "time", "t"]
 
 
 @st.composite
-def index_spec(draw, kinds=INDEX_KINDS):
+def index_spec(draw, kinds=INDEX_KINDS, names=True):
     kind = draw(st.sampled_from(kinds))
     spec = {"kind": kind}
     if kind == "range_offset":
@@ -182,10 +199,25 @@ def index_spec(draw, kinds=INDEX_KINDS):
         spec["step"] = draw(st.sampled_from([2, 7]))
     elif kind.startswith("datetime") or kind.startswith("period"):
         spec["start"] = draw(st.sampled_from(["2020-01-01", "1999-12-31", "2024-02-28"]))
+    if kind == "datetime_repeat":
+        spec["at"] = draw(st.integers(0, 40))
+    if kind == "period_repeat":
+        spec["reps"] = draw(st.sampled_from([2, 3, 10]))
+    if names:
+        name = draw(st.sampled_from(INDEX_NAMES))
+        if name is not None:
+            spec["name"] = name
     return spec
 
 
 def build_index(spec, n):
+    idx = _build_index(spec, n)
+    if spec.get("name") is not None:
+        idx = idx.rename(spec["name"])
+    return idx
+
+
+def _build_index(spec, n):
     import pandas as pd
 
     k = spec["kind"]
@@ -203,4 +235,46 @@ def build_index(spec, n):
         return pd.period_range(spec["start"], periods=n, freq="M")
     if k == "period_D":
         return pd.period_range(spec["start"], periods=n, freq="D")
+    if k == "datetime_repeat":
+        base = pd.date_range(spec["start"], periods=max(n - 1, 1), freq="h")
+        at = min(spec["at"], len(base) - 1)
+        return pd.DatetimeIndex(list(base[:at + 1]) + list(base[at:]))[:n]
+    if k == "period_repeat":
+        r = spec["reps"]
+        return pd.period_range(spec["start"], periods=n // r + 1, freq="D").repeat(r)[:n]
     raise ValueError(k)
+
+
+def same_index(got, expected):
+    """Exactly the same index: values, length and name(s)."""
+    return len(got) == len(expected) and got.equals(expected) and list(got.names) == list(expected.names)
+
+
+# ---- column labels (C05, C11, C12, C16) ------------------------------------------------
+
+COLUMN_KINDS = ["default", "strings", "strings_reversed", "unsorted", "reserved", "int_shuffled", "mixed", "duplicated"]
+UNIQUE_COLUMN_KINDS = COLUMN_KINDS[:-2]
+
+
+def column_labels(kind, p):
+    """Column labels of a DataFrame with p columns (a plain list; `default` = 0..p-1)."""
+    if kind.startswith("rev:"):  # the same label set in the opposite order
+        return column_labels(kind[4:], p)[::-1]
+    if kind == "default":
+        return list(range(p))
+    if kind == "strings":
+        return [f"v{chr(97 + j)}" for j in range(p)]
+    if kind == "strings_reversed":  # the same label set as `strings`, in the opposite order
+        return [f"v{chr(97 + j)}" for j in range(p)][::-1]
+    if kind == "unsorted":  # not in lexicographic order
+        return [f"{chr(122 - (j % 26))}{j}" for j in range(p)]
+    if kind == "reserved":  # words the library itself uses for its output columns
+        words = ["labels", "ilocs", "icolumns", "index", "level_0", "scores"]
+        return [words[j % 6] + ("" if j < 6 else str(j)) for j in range(p)]
+    if kind == "int_shuffled":  # integer labels that are not the positions
+        return [10 + p - 1 - j for j in range(p)]
+    if kind == "mixed":  # 1 and "1" are different labels that print alike
+        return [(j // 2 + 1) if j % 2 == 0 else str(j // 2 + 1) for j in range(p)]
+    if kind == "duplicated":  # the first label occurs twice
+        return ["temp"] + ["temp" if j == 1 else f"v{chr(97 + j)}" for j in range(1, p)]
+    raise ValueError(kind)
